@@ -2,6 +2,8 @@
 // (the same lines are read by FeatModel/Driver/C06.lean).
 //
 //   vec  MODE SIG <filter> <vector>                         MODE in {rhs, sol, def, cor}
+//   gvec MODE SIG <filter> <vector>                         the same through Global::Filter<F, VectorMirror> / Global::Vector
+//   gmean MODE comm n prim^n dual^n nf freq^nf D n x^n      Global::MeanFilter(prim, dual, freq, comm ? &world : nullptr)
 //   mat  KIND SIG <filter> rows cols L(rowPtr) L(colInd) L(val) [L(valM)]      KIND in {mat, offdiag, weak}  (CSR)
 //   matb KIND BS BW <filter> rows cols L(rowPtr) L(colInd) L(val) [L(valM)]    UnitFilterBlocked<BS> on BCSR<BS,BW>
 //   matb offdiag 1 BW <filter U> rows cols ...                                 UnitFilter on BCSR<1,BW>
@@ -46,6 +48,13 @@ namespace FEAT { namespace Math {
 #include <kernel/lafem/filter_sequence.hpp>
 #include <kernel/lafem/tuple_filter.hpp>
 #include <kernel/lafem/power_filter.hpp>
+#include <kernel/lafem/vector_mirror.hpp>
+#include <kernel/util/dist.hpp>
+// the exact scalar travels through the (serial, in-place) allreduce of Global::MeanFilter as its 64-bit handle
+namespace FEAT { namespace Dist { template<> inline const Datatype& autotype<Q>() { return dt_unsigned_long_long; } } }
+#include <kernel/global/vector.hpp>
+#include <kernel/global/filter.hpp>
+#include <kernel/global/mean_filter.hpp>
 #include <map>
 
 using namespace FEAT;
@@ -281,6 +290,38 @@ template<typename F_> static void run_vec(Cur& c, std::ostream& o, const std::st
 }
 template<typename F_> static void reg_vec() { vec_menu()[Sig<F_>::s()] = run_vec<F_>; }
 
+// Global::Filter<F, Mirror>: the local filter applied to the local vector of a Global::Vector (no gate needed)
+static std::map<std::string, Run>& gvec_menu() { static std::map<std::string, Run> m; return m; }
+template<typename F_> static void run_gvec(Cur& c, std::ostream& o, const std::string& mode)
+{
+  typedef VectorMirror<Q, Index> Mir;
+  Global::Filter<F_, Mir> gf; build(c, gf.local());
+  Global::Vector<typename F_::VectorType, Mir> gv; build(c, gv.local());
+  if(!c.done()) bad("trailing tokens");
+  apply(mode, gf, gv);
+  o << "R"; dump(o, gv.local());
+  apply(mode, gf, gv);
+  o << " R2"; dump(o, gv.local());
+}
+template<typename F_> static void reg_gvec() { gvec_menu()[Sig<F_>::s()] = run_gvec<F_>; }
+
+// Global::MeanFilter<Q, Index>(prim, dual, freq, comm):  gmean MODE comm n prim^n dual^n nf freq^nf D n x^n
+static void run_gmean(Cur& c, std::ostream& o, const std::string& mode)
+{
+  Index use_comm = c.idx(), n = c.idx();
+  DV prim = mk_dv(c, n), dual = mk_dv(c, n);
+  Index nf = c.idx();
+  DV freq = mk_dv(c, nf);
+  DV v; build(c, v);
+  if(!c.done()) bad("trailing tokens");
+  Dist::Comm comm(Dist::Comm::world());
+  Global::MeanFilter<Q, Index> f(std::move(prim), std::move(dual), std::move(freq), use_comm != 0 ? &comm : nullptr);
+  apply(mode, f, v);
+  o << "R"; dump(o, v);
+  apply(mode, f, v);
+  o << " R2"; dump(o, v);
+}
+
 // ------------------------------------------------------------------------------------------------------------------
 // matrices
 // ------------------------------------------------------------------------------------------------------------------
@@ -426,6 +467,15 @@ static void init_menus()
   reg_vec<PowerFilter<M, 1>>(); reg_vec<PowerFilter<U, 2>>(); reg_vec<PowerFilter<U, 3>>(); reg_vec<PowerFilter<UB<2>, 2>>();
   reg_vec<PowerFilter<FilterChain<U, M>, 2>>();
   reg_vec<TupleFilter<PowerFilter<U, 2>, M>>();
+  // compositions whose members all have four different member functions (dispatch stream)
+  typedef FilterChain<U, M> CUM;
+  typedef FilterChain<UB<2>, MB<2>> CUMB;
+  reg_vec<CUMB>();
+  reg_vec<TupleFilter<CUM, CUM, CUM>>(); reg_vec<FilterChain<CUM, CUM, CUM>>(); reg_vec<PowerFilter<CUM, 3>>();
+  reg_vec<TupleFilter<CUMB, CUM>>(); reg_vec<FilterSequence<CUMB>>();
+  reg_vec<TupleFilter<CUM>>(); reg_vec<PowerFilter<CUM, 1>>();   // the one-element specialisations
+  // Global::Filter wrappers
+  reg_gvec<U>(); reg_gvec<M>(); reg_gvec<CUM>(); reg_gvec<UB<2>>(); reg_gvec<S<2>>(); reg_gvec<CUMB>();
   // matrices (CSR)
   reg_mat<U>(); reg_mat<M>(); reg_mat<N>();
   reg_mat<FilterChain<U, U>>(); reg_mat<FilterChain<U, M>>(); reg_mat<FilterChain<N, U>>(); reg_mat<FilterChain<U, U, U, M>>();
@@ -444,6 +494,18 @@ static void handler(const verif::Tokens& tok, std::ostream& o)
     auto it = vec_menu().find(sig);
     if(it == vec_menu().end()) { o << "BAD-OP"; return; }
     it->second(c, o, mode);
+  }
+  else if(op == "gvec")
+  {
+    std::string mode = c.str(), sig = c.str();
+    auto it = gvec_menu().find(sig);
+    if(it == gvec_menu().end()) { o << "BAD-OP"; return; }
+    it->second(c, o, mode);
+  }
+  else if(op == "gmean")
+  {
+    std::string mode = c.str();
+    run_gmean(c, o, mode);
   }
   else if(op == "mat")
   {
